@@ -892,7 +892,6 @@ def mon_c03(h, o, nwf, keys):
 
 
 # ------------------------------------------------------------------ C06
-K7_TAG = "c06-plain-key-holds-several-ips"
 
 
 def routing_scenarios(rng, ctx, n):
@@ -1054,8 +1053,7 @@ def mon_c06(h, o, nwf, keys):
                 tags = []
                 key = pod_key(sp)
                 mine = [e for e in prev["alloc"] if e[1] == key]
-                if not sp.get("Ranges") and len(mine) >= 2:
-                    tags = [K7_TAG]
+                # (K7 - a plain key holding several IPs - is repaired: d08b5a9; no failure is attributed to it any more)
                 injected = any(c[2] for c in st.get("calls") or []) or "injected" in (st.get("bindlog") or []) or \
                     not all(c[3] for c in st.get("cloudcalls") or [])
                 if not injected:
